@@ -360,6 +360,10 @@ def r04_4(run):
             why = 'element-wise comparison (zip/loop) without a length test accepts a truncated or empty value'
     run.ob('R04.4', cv, cv.node, 'compare_via_hash compares the complete values', shape_ok, slot='compare-shape',
            message='compare_via_hash: %s' % why)
+    hm = run.idx.unit('util.hmac_sha256')
+    rets_h = [r for r in walk_unit(hm) if isinstance(r, ast.Return)]
+    okh = len(rets_h) == 1 and src(rets_h[0].value).replace(' ', '') == 'hmac.new(%s,%s,hashlib.sha256).digest()' % (hm.params[0], hm.params[1])
+    run.ob('R04.4', hm, hm.node, 'hmac_sha256 is HMAC-SHA256(key, msg)', okh, slot='hmac-shape', message='hmac_sha256 returns %s' % [src(r.value) for r in rets_h])
     # taint: the raw cookie
     ci = proto(run)
     k = 0
